@@ -7,10 +7,13 @@ package main
 //	shutdown -out <prefix> -seed N -tier quick|thorough
 //
 // Every scenario starts its own wonderwall process (own ports) in front of a slow fake upstream, issues requests at
-// planned offsets relative to the instant SIGTERM is sent, and records for every request whether the connection was
-// refused, the response completed, or it was cut, and when; and the exit time and status of the process.
+// planned offsets relative to the instant the FIRST termination signal is sent, sends further signals (SIGHUP / SIGINT /
+// SIGTERM / SIGQUIT, a second and a third one) at planned instants inside the wait-before period and inside the drain, and
+// records for every request whether the connection was refused, the response completed, or it was cut, and when; and the
+// exit time and status of the process (a process that was killed by a signal has status -<signal number>).
 //
-//	<prefix>.in     shutdown <W> <G> | <arrivals ns> | <service ns>        (planned times, relative to the signal)
+//	<prefix>.in     shutdown <nn> <W> <G> | <arrivals ns> | <service ns> | <signal instants ns> | <signal numbers>
+//	                (planned times, relative to the first signal; the signal lists start with the first signal at 0)
 //	<prefix>.impl   <exit_ns> <exit_code> | <accepted 0/1>... | <completed 0/1>... | <end_ns>...
 //
 // The comparison with Model/Shutdown.v is done in lib/props/c19.py (flags exact, times within the stated tolerance).
@@ -35,15 +38,49 @@ import (
 )
 
 func init() {
-	register("shutdown", "C19: SIGTERM timeline of the built binary with a slow upstream: accepted / completed / cut requests, exit time and status", runShutdown)
+	register("shutdown", "C19: termination-signal timeline of the built binary with a slow upstream: accepted / completed / cut requests, exit time and status", runShutdown)
 }
 
 type sdReq struct{ a, d time.Duration }
 
+// a further signal, [at] after the first one
+type sdSig struct {
+	at   time.Duration
+	kind syscall.Signal
+}
+
 type sdScenario struct {
-	name string
-	W, G time.Duration
-	reqs []sdReq
+	name  string
+	W, G  time.Duration
+	reqs  []sdReq
+	first syscall.Signal // the signal that starts the shutdown (0 = SIGTERM)
+	sigs  []sdSig        // further signals, in order of their instants
+}
+
+func (sc sdScenario) firstSignal() syscall.Signal {
+	if sc.first == 0 {
+		return syscall.SIGTERM
+	}
+	return sc.first
+}
+
+// the termination signals pkg/server registers
+var sdTermSignals = []syscall.Signal{syscall.SIGTERM, syscall.SIGHUP, syscall.SIGINT, syscall.SIGQUIT}
+
+func sdSigName(k syscall.Signal) string {
+	switch k {
+	case syscall.SIGTERM:
+		return "TERM"
+	case syscall.SIGHUP:
+		return "HUP"
+	case syscall.SIGINT:
+		return "INT"
+	case syscall.SIGQUIT:
+		return "QUIT"
+	case syscall.SIGKILL:
+		return "KILL"
+	}
+	return strconv.Itoa(int(k))
 }
 
 type sdReqObs struct {
@@ -59,8 +96,17 @@ type sdObs struct {
 	exit     time.Duration
 	exitCode int
 	reqs     []sdReqObs
+	sigs     []string // the signals as sent: kind@actual offset (and whether the process was still there)
 	err      string
 	log      string
+}
+
+// sdExitStatus: the exit code, or -<signal number> when the process was terminated by a signal
+func sdExitStatus(ps *os.ProcessState) int {
+	if ws, ok := ps.Sys().(syscall.WaitStatus); ok && ws.Signaled() {
+		return -int(ws.Signal())
+	}
+	return ps.ExitCode()
 }
 
 func sdStartUpstream() (*http.Server, string, error) {
@@ -167,7 +213,22 @@ func sdRunScenario(bin, cwd, wk, upstream string, sc sdScenario) sdObs {
 	}
 	time.Sleep(time.Until(S))
 	sent := time.Now()
-	cmd.Process.Signal(syscall.SIGTERM)
+	cmd.Process.Signal(sc.firstSignal())
+	obs.sigs = append(obs.sigs, sdSigName(sc.firstSignal())+"@0ms")
+	// further signals at their planned instants (to this process only; after it has exited Signal fails and does nothing)
+	sigDone := make(chan struct{})
+	go func() {
+		defer close(sigDone)
+		for _, x := range sc.sigs {
+			time.Sleep(time.Until(S.Add(x.at)))
+			at := time.Since(sent)
+			gone := ""
+			if err := cmd.Process.Signal(x.kind); err != nil {
+				gone = "(process gone)"
+			}
+			obs.sigs = append(obs.sigs, fmt.Sprintf("%s@%dms%s", sdSigName(x.kind), at.Milliseconds(), gone))
+		}
+	}()
 	// the process must be gone long before this
 	limit := sc.G + 8*time.Second
 	if sc.W < 0 {
@@ -176,14 +237,15 @@ func sdRunScenario(bin, cwd, wk, upstream string, sc sdScenario) sdObs {
 	select {
 	case <-done:
 		obs.exit = exitAt.Sub(sent)
-		obs.exitCode = cmd.ProcessState.ExitCode()
+		obs.exitCode = sdExitStatus(cmd.ProcessState)
 	case <-time.After(limit):
 		kill()
 		obs.exit = limit
-		obs.exitCode = -9
+		obs.exitCode = -1000
 		obs.err = "still running after graceful + 8 s; killed"
 	}
 	wg.Wait()
+	<-sigDone
 	obs.log = scTail(buf.String())
 	return obs
 }
@@ -226,6 +288,7 @@ func sdScenarios(rng *mrand.Rand, tier string) []sdScenario {
 		// nothing in flight: exits as soon as the listener is closed
 		out = append(out, sdScenario{name: fmt.Sprintf("W=%s G=%s idle", W, G), W: W, G: G, reqs: []sdReq{{after, 100 * ms}}})
 	}
+	out = append(out, sdSignalScenarios()...)
 	if tier == "thorough" {
 		for k := 0; k < 96; k++ {
 			c := cfgs[rng.Intn(len(cfgs))]
@@ -260,6 +323,16 @@ func sdScenarios(rng *mrand.Rand, tier string) []sdScenario {
 				}
 				sc.reqs = append(sc.reqs, sdReq{a, fin - a})
 			}
+			// further termination signals at random instants (at least 150 ms after the first one)
+			if rng.Intn(2) == 0 {
+				sc.first = sdTermSignals[rng.Intn(len(sdTermSignals))]
+				at := time.Duration(0)
+				for j, n := 0, 1+rng.Intn(3); j < n; j++ {
+					at += time.Duration(150+rng.Intn(int(c.G/ms)/2)) * ms
+					sc.sigs = append(sc.sigs, sdSig{at, sdTermSignals[rng.Intn(len(sdTermSignals))]})
+					sc.name += fmt.Sprintf(" +%s@%s", sdSigName(sc.sigs[j].kind), at)
+				}
+			}
 			out = append(out, sc)
 		}
 	}
@@ -269,6 +342,77 @@ func sdScenarios(rng *mrand.Rand, tier string) []sdScenario {
 		reqs: []sdReq{{-250 * ms, 5000 * ms}, {350 * ms, 100 * ms}}})
 	out = append(out, sdScenario{name: "W=-500ms G=0s", W: -500 * ms, G: 0, reqs: []sdReq{{-250 * ms, 300 * ms}}})
 	out = append(out, sdScenario{name: "W=1s G=1s", W: 1000 * ms, G: 1000 * ms, reqs: []sdReq{{-250 * ms, 300 * ms}}})
+	return out
+}
+
+// sdSignalScenarios: a second (and a third, fourth) termination signal of each kind while the shutdown sequence started by
+// the first one is under way - inside the wait-before period and inside the drain - with a request in flight, a request
+// arriving during the wait-before period AFTER the second signal, and a connection attempt after the listener closed.
+// Every planned instant is at least 150 ms away from every other planned instant of the scenario and from every instant
+// at which the outcome changes (listener close, Shutdown's poll windows, deadline), so that the observations are
+// determinate both when the further signals are ignored (as they must be) and when one of them ends the process.
+func sdSignalScenarios() []sdScenario {
+	ms := time.Millisecond
+	var out []sdScenario
+	type wg struct{ W, G, fin time.Duration }
+	// fin: finish instant of the request in flight at the first signal; noticed by a poll of Shutdown well before the deadline
+	// (close + 511..562 ms, + 1011..1112 ms, + 1511..1662 ms)
+	cfgs := []wg{{0, 2000 * ms, 800 * ms}, {500 * ms, 2000 * ms, 1300 * ms}, {1000 * ms, 3000 * ms, 2300 * ms}}
+	K := sdTermSignals
+	for ci, c := range cfgs {
+		W, G := c.W, c.G
+		before := -250 * ms
+		inWait, newReq := W*2/5, W*7/10 // second signal in the wait-before period; a new request after it, before the close
+		inDrain, after, inDrain2 := W+200*ms, W+350*ms, W+550*ms
+		for ki, k := range K {
+			first := K[(ki+ci+1)%4]
+			base := func(what string) sdScenario {
+				return sdScenario{name: fmt.Sprintf("W=%s G=%s first signal %s, %s; in-flight request finishing at %s", W, G, sdSigName(first), what, c.fin),
+					W: W, G: G, first: first, reqs: []sdReq{{before, c.fin - before}}}
+			}
+			if W > 0 {
+				// A: second signal during the wait-before period
+				sc := base(fmt.Sprintf("%s at %s (wait-before period)", sdSigName(k), inWait))
+				sc.sigs = []sdSig{{inWait, k}}
+				sc.reqs = append(sc.reqs, sdReq{newReq, 200 * ms}, sdReq{after, 100 * ms})
+				out = append(out, sc)
+			}
+			// B: second signal while draining (every other kind: a third one too)
+			{
+				what := fmt.Sprintf("%s at %s (draining)", sdSigName(k), inDrain)
+				sigs := []sdSig{{inDrain, k}}
+				if ki%2 == 1 {
+					k3 := K[(ki+2)%4]
+					what += fmt.Sprintf(", %s at %s", sdSigName(k3), inDrain2)
+					sigs = append(sigs, sdSig{inDrain2, k3})
+				}
+				sc := base(what)
+				sc.sigs = sigs
+				if W > 0 {
+					sc.reqs = append(sc.reqs, sdReq{newReq, 200 * ms})
+				}
+				sc.reqs = append(sc.reqs, sdReq{after, 100 * ms})
+				out = append(out, sc)
+			}
+			if W > 0 && ki%2 == 0 {
+				// C: second signal in the wait-before period, third and fourth while draining
+				k3, k4 := K[(ki+1)%4], K[(ki+3)%4]
+				sc := base(fmt.Sprintf("%s at %s (wait-before period), %s at %s and %s at %s (draining)", sdSigName(k), inWait, sdSigName(k3), inDrain, sdSigName(k4), inDrain2))
+				sc.sigs = []sdSig{{inWait, k}, {inDrain, k3}, {inDrain2, k4}}
+				sc.reqs = append(sc.reqs, sdReq{newReq, 200 * ms}, sdReq{after, 100 * ms})
+				out = append(out, sc)
+			}
+		}
+		if W > 0 {
+			// nothing in flight, nothing arriving before the close: the process must still be there until the wait is over
+			out = append(out, sdScenario{name: fmt.Sprintf("W=%s G=%s idle, first signal INT, HUP at %s (wait-before period)", W, G, inWait),
+				W: W, G: G, first: syscall.SIGINT, sigs: []sdSig{{inWait, syscall.SIGHUP}}, reqs: []sdReq{{after, 100 * ms}}})
+		}
+	}
+	// control: a signal that cannot be handled. The model says the process is gone at that instant; the driver must see it
+	// (status -9, request in flight cut, later connection refused). The monitor makes no claim about this scenario.
+	out = append(out, sdScenario{name: "control: W=1s G=3s SIGKILL at 400ms; in-flight request finishing at 2.3s", W: 1000 * ms, G: 3000 * ms,
+		sigs: []sdSig{{400 * ms, syscall.SIGKILL}}, reqs: []sdReq{{-250 * ms, 2550 * ms}, {700 * ms, 200 * ms}}})
 	return out
 }
 
@@ -375,6 +519,14 @@ func runShutdown(args []string) error {
 		for _, q := range sc.reqs {
 			in = append(in, strconv.FormatInt(int64(q.d), 10))
 		}
+		in = append(in, "|", "0")
+		for _, x := range sc.sigs {
+			in = append(in, strconv.FormatInt(int64(x.at), 10))
+		}
+		in = append(in, "|", strconv.Itoa(int(sc.firstSignal())))
+		for _, x := range sc.sigs {
+			in = append(in, strconv.Itoa(int(x.kind)))
+		}
 		fmt.Fprintln(fin, strings.Join(in, " "))
 		if o.refused {
 			fmt.Fprintf(fimpl, "R %d\n", o.refClass)
@@ -398,7 +550,7 @@ func runShutdown(args []string) error {
 		for _, r := range o.reqs {
 			ds = append(ds, fmt.Sprintf("%s@%dms..%dms %s", r.outcome, r.start.Milliseconds(), r.end.Milliseconds(), r.detail))
 		}
-		fmt.Fprintf(fnotes, "%s\t%s\t%s\n", sc.name, strings.Join(ds, " ; "), strings.ReplaceAll(o.err, "\n", " "))
+		fmt.Fprintf(fnotes, "%s\t%s ; signals sent: %s\t%s\n", sc.name, strings.Join(ds, " ; "), strings.Join(o.sigs, " "), strings.ReplaceAll(o.err, "\n", " "))
 	}
 	fmt.Fprintf(os.Stderr, "shutdown: %d scenarios in %.1fs\n", len(scs), time.Since(t0).Seconds())
 	return nil
